@@ -404,6 +404,14 @@ def c17b(tree, ob):
             ob.site(SESS, fv.func, 'dispatch arm for ' + cls)
         else:
             ob.violate(SESS, fv.qual, 'msgcls == messages.' + cls, 'message type {} has no dispatch arm (it would be answered as unknown)'.format(cls), fv.func)
+    # a contact header is acted on for exactly the version this entity speaks
+    peers = [n for n in walk_local(fv.func) if isinstance(n, ast.Assign) and any(src(t) == 'self._conhead_peer' for t in n.targets) and src(n.value) == 'pkt.payload']
+    for n in peers:
+        if fv.has(n, 'pkt.version == 4', True) and fv.has(n, 'pkt.magic == contact.MAGIC_HEAD', True):
+            ob.site(SESS, n, 'contact header accepted only with the right magic and version 4')
+        else:
+            ob.violate(SESS, fv.qual, 'contact header accepted without (magic == dtn! and version == 4)', 'a contact header of another version is acted on: its payload is not a ContactV4, reading its flags raises '
+                       'AttributeError out of the receive callback', n)
     # the SESS_INIT arm needs a state guard like every other arm: one SESS_INIT per session
     inits = [n for n in walk_local(fv.func) if isinstance(n, ast.Assign) and any(src(t) == 'self._sessinit_peer' for t in n.targets) and src(n.value) == 'pkt.payload']
     for n in inits:
@@ -476,6 +484,10 @@ def c17b(tree, ob):
             if isinstance(st, (ast.Assign, ast.AugAssign)) and any(n.startswith('self.') for n in norm.written_names(st)):
                 if not fo.dominates(base, st)[0]:
                     late.append(st)
+        ok_all, wit = fo.cfg.must_pass(fo.cfg.entry, fo.cfg.exit, {fo.node(base)}, include_exc=False)
+        if not ok_all:
+            ob.violate(SESS, fo.qual, 'return before Messenger.{}(self, ...)'.format(hname), 'the handler can return before the base check ran: such a message is silently accepted outside a session '
+                       '/ for a non-matching transfer instead of being answered with MSG_REJECT', base, path_text(wit or []))
         if late:
             ob.violate(SESS, fo.qual, src(late[0])[:60], 'state is touched before the base in-session check ran', late[0])
         else:
@@ -577,6 +589,11 @@ def c17c(tree, ob):
 
 # ---------------------------------------------------------------- C17.d
 def c17d(tree, ob):
+    c17d_start(tree, ob)
+    c17d_setup(tree, ob)
+
+
+def c17d_start(tree, ob):
     # a START must not replace a transfer being received, nor one waiting to be popped under the same id
     fh = FuncView(tree, SESS, 'ContactHandler.recv_xfer_data')
     for call in method_calls(fh.func, '_rx_setup', 'self'):
@@ -597,6 +614,9 @@ def c17d(tree, ob):
                        'map entry of a finished transfer with the same id (two announcements, one poppable bundle)', call)
         else:
             ob.site(SESS, call, 'START accepted only with no transfer in progress and an unused id')
+
+
+def c17d_setup(tree, ob):
     fv = FuncView(tree, SESS, 'ContactHandler._rx_setup')
     cls = tree.klass(SESS, 'ContactHandler')
     # when every caller has already cleared the previous reception, "allocate only if none is active" is the same as
